@@ -43,8 +43,9 @@ class C20(WrapHarness):
         q = tier == 'quick'
         return ('texts of <= %d tokens over %r (Unicode separator, optimal-fit defaults) and <= 3 symbolic characters '
                 '(ASCII separator), 1..%d columns, total width symbolic in 0..%d (it sizes the paddings, which are '
-                'enumerated), gaps from stated sets incl. empty, multi-byte and wide ones plus symbolic gaps of <= 1 character, break_words on/off'
-                % (3 if q else 4, ALPHA20, 3 if q else 4, 8 if q else 14))
+                'enumerated), gaps from stated sets incl. empty, multi-byte and wide ones plus symbolic gaps of <= 1 character, break_words on/off; '
+                'plus sentence templates at total widths up to %d and one / two wide columns at total widths up to %d'
+                % (3 if q else 4, ALPHA20, 3 if q else 4, 8 if q else 14, 24 if q else 40, 48 if q else 80))
 
     def gen(self, I, cfg):
         inp = WrapHarness.gen(self, I, cfg)
